@@ -42,7 +42,7 @@ func sameNodeValue(a, b ssa.Value) bool {
 
 func init() {
 	register(&Rule{
-		ID: "C03.R1", Props: []string{"C03"}, Min: 16,
+		ID: "C03.R1", Props: []string{"C03", "C14"}, Min: 16,
 		Doc: "the truthiness table is exhaustive over Go's basic kinds: IsTruthy's type switch has a case with a genuine zero test for every signed/unsigned/float width, plus bool, string and nil; a zero test written `b != 0` only counts in a single-type case (in a multi-type case b is an interface and the comparison is always true for other widths), multi-type cases must use a value-based idiom (formatting, reflect IsZero)",
 		Run: func(p *Prog, c *Ctx) {
 			fn := p.MustFn("helpers.IsTruthy")
@@ -171,13 +171,14 @@ func init() {
 	})
 
 	register(&Rule{
-		ID: "C03.R3", Props: []string{"C03"}, Min: 1,
-		Doc: "orphan v-else-if / v-else are dropped: in the evaluator the generic element handling (attribute evaluation of the cloned node) is only reachable when the element carries neither v-else-if nor v-else",
+		ID: "C03.R3", Props: []string{"C03", "C04"}, Min: 2,
+		Doc: "orphan v-else-if / v-else are dropped before anything renders them: in the evaluator both unconditional rendering paths — the generic element handling and the <template> handling — are only reachable when the element carries neither v-else-if nor v-else (the chain walker and the v-for look-ahead skip only up to the member they rendered and rely on this to drop the rest, also when a later member is a <template>)",
 		Run: func(p *Prog, c *Ctx) {
 			fn := p.MustFn("(*vuego.Vue).evaluate")
 			n := 0
 			for _, site := range callsIn(fn) {
-				if calleeName(site.Common()) != "(*vuego.Vue).evalAttributes" {
+				// the generic clone path and the <template> path both render the element unconditionally
+				if nm := calleeName(site.Common()); nm != "(*vuego.Vue).evalAttributes" && nm != "(*vuego.Vue).evalTemplate" {
 					continue
 				}
 				n++
@@ -193,7 +194,7 @@ func init() {
 						}
 					}
 				}
-				c.check(need["v-else-if"] && need["v-else"], fmt.Sprintf("evaluate: generic element path#%d", n), p.instrPos(site), "guarded by !HasAttr(v-else-if) && !HasAttr(v-else)", "an element with v-else-if / v-else outside a chain reaches the generic rendering path: the orphan branch is rendered unconditionally")
+				c.check(need["v-else-if"] && need["v-else"], fmt.Sprintf("evaluate: generic element path#%d", n), p.instrPos(site), "guarded by !HasAttr(v-else-if) && !HasAttr(v-else)", "an element with v-else-if / v-else that is not selected by a chain reaches an unconditional rendering path ("+calleeName(site.Common())+"): the leftover branch is rendered although another branch (or the loop) already was")
 			}
 		},
 	})
